@@ -126,6 +126,8 @@ struct St {
     now_ms: u64,
     seed: u64,
     seen: Vec<u64>,
+    /// the shell's single one-shot timer: set by every ArmTimer, spent by `fire`
+    shell_timer: Option<Instant>,
     // oracle
     live: HashMap<usize, Inc>,
     cur: ClusterConfig,
@@ -400,6 +402,7 @@ fn run(c: &Case, out: &mut Out) {
                 now_ms: st.as_ref().map_or(0, |s| s.now_ms),
                 seed,
                 seen: st.as_ref().map_or(vec![], |s| s.seen.clone()),
+                shell_timer: None,
                 live: HashMap::new(),
                 cur: cfg,
                 max_flows: mf,
@@ -415,10 +418,33 @@ fn run(c: &Case, out: &mut Out) {
             out.obs(&[]);
             continue;
         };
-        let now = s.now();
+        let mut now = s.now();
         let mut exp = Expect::default();
         let kind;
         match name {
+            "fire" => {
+                // the shell's timer fires: at the armed deadline, or up to `early` ms before it
+                // (lib/src/timer.rs rounds a delay to the nearest 100 ms tick)
+                let Some(d) = s.shell_timer else {
+                    out.obs(&[]);
+                    continue;
+                };
+                let t = (s.ms(d) as u64).saturating_sub(a[0].n() as u64);
+                if t > s.now_ms {
+                    s.now_ms = t;
+                }
+                now = s.now();
+                s.shell_timer = None;
+                kind = Kind::Timeout;
+                for id in s.live.keys() {
+                    if let Some(f) = s.mgr.flow(*id) {
+                        if f.idle_deadline <= now {
+                            exp.must_close.push(*id);
+                        }
+                    }
+                }
+                s.mgr.handle_timeout(now);
+            }
             "tick" => {
                 s.now_ms += a[0].n() as u64;
                 out.obs(&[]);
@@ -662,8 +688,16 @@ fn run(c: &Case, out: &mut Out) {
 }
 
 fn finish(s: &mut St, kind: Kind, exp: Expect, outs: Vec<Output>, out: &mut Out, name: &str) {
+    for o in &outs {
+        if let Output::ArmTimer(d) = o {
+            s.shell_timer = Some(*d);
+        }
+    }
     oracle(s, kind, exp, &outs, out, name);
     check_state(s, out, name);
+    if s.mgr.flow_count() > 0 && s.shell_timer.is_none() {
+        out.viol("timer-lost", &format!("{name}: {} flows remain but the shell's one-shot timer was spent and not re-armed: idle flows are never torn down", s.mgr.flow_count()));
+    }
     let mut t = s.out_toks(&outs);
     t.extend(s.st_toks());
     out.obs(&t);
